@@ -276,8 +276,8 @@ def build(backend, tier):
     add("tree_type:vector", "ds.Select(lambda e: e.Roots('A').Select(lambda j: j.t_color()))", [mti("Root", "t_color", return_type="Color", tree_type="int")], pre,
         col_types={"std::vector<int>"}, whole=True)
     # ---- enums in namespaces of depth 1 and 2
-    for depth in (1, 2):
-        ns = ["NSA", "Sub"][:depth]
+    for depth in (1, 2, 3, 4):
+        ns = ["NSA", "Sub", "Deep", "Er"][:depth]
         ns_py = ".".join(ns)
         ns_cpp = "::".join(ns)
         vals = ["Red", "Blue", "Green"]
